@@ -200,6 +200,12 @@ func FaultInjection(max int) {}
 // Faults is the number of injected file-system failures on this path.
 func Faults() int { return 0 }
 
+// MarkShared declares the memory reachable from roots (and every package-level variable) as
+// shared between goroutines from now on: under the symbolic executor any later store to it that
+// is not protected by a mutex or made through sync/atomic, sync.Pool or sync.Map is reported.
+// Natively it does nothing (the race detector is the native counterpart).
+func MarkShared(roots ...any) {}
+
 // Symbolic reports whether the harness runs under the symbolic executor.
 func Symbolic() bool { return false }
 
